@@ -49,7 +49,11 @@ func init() {
 				connected[id] = true
 				canSetExpiry[id] = op.V5 && op.Expiry > 0
 			case connected[id] && x < 21:
-				c.Ops = append(c.Ops, sessOp{Op: "sub", ID: id, T: r.Intn(2), NL: r.Chance(40)})
+				if r.Chance(25) {
+					c.Ops = append(c.Ops, sessOp{Op: "unsub", ID: id, T: r.Intn(2)})
+				} else {
+					c.Ops = append(c.Ops, sessOp{Op: "sub", ID: id, T: r.Intn(2), NL: r.Chance(40)})
+				}
 			case connected[id] && x < 25:
 				c.Ops = append(c.Ops, sessOp{Op: "selfpub", ID: id, T: r.Intn(2)})
 			case x < 50:
@@ -82,6 +86,10 @@ func init() {
 			return &sessCase{Stalled: 3}
 		}
 		c := &sessCase{Preempt: true}
+		if i%10 == 6 {
+			restartWithPendingWill(r, c)
+			return c
+		}
 		v5mask := r.Intn(4) // which client ids speak MQTT 5 in this history
 		n := 3 + r.Intn(8)
 		connected := map[int]bool{}
@@ -125,6 +133,20 @@ func init() {
 	}}
 }
 
+// a v5 session whose connection ends abnormally with a delayed will and a session expiry pending, then the broker is
+// stopped and restarted after none / one / both of the two intervals have elapsed (the will is due exactly once)
+func restartWithPendingWill(r *Rng, c *sessCase) {
+	exp := int64(1 + r.Intn(2))
+	delay := 1 + r.Intn(2)
+	c.Ops = append(c.Ops, sessOp{Op: "connect", ID: 0, V5: true, Expiry: exp, WillDelay: delay})
+	if r.Chance(50) {
+		c.Ops = append(c.Ops, sessOp{Op: "sub", ID: 0, T: 0})
+	}
+	c.Ops = append(c.Ops, sessOp{Op: "drop", ID: 0}, sessOp{Op: "stop"})
+	c.Ops = append(c.Ops, sessOp{Op: "wait", Ms: []int{400, 1500, 2600, 3300}[r.Intn(4)]})
+	c.Ops = append(c.Ops, sessOp{Op: "restart"}, sessOp{Op: "wait", Ms: 400}, sessOp{Op: "pub", T: 0}, sessOp{Op: "wait", Ms: 2500})
+}
+
 func genPopulation(r *Rng, c *sessCase, v5mask int, wills bool, timed bool) {
 	connected := map[int]bool{}
 	canSetExpiry := map[int]bool{}
@@ -139,7 +161,11 @@ func genPopulation(r *Rng, c *sessCase, v5mask int, wills bool, timed bool) {
 			connected[id] = true
 			canSetExpiry[id] = op.V5 && op.Expiry > 0
 		case connected[id] && x < 30:
-			c.Ops = append(c.Ops, sessOp{Op: "sub", ID: id, T: r.Intn(2), NL: r.Chance(40)})
+			if r.Chance(25) {
+				c.Ops = append(c.Ops, sessOp{Op: "unsub", ID: id, T: r.Intn(2)})
+			} else {
+				c.Ops = append(c.Ops, sessOp{Op: "sub", ID: id, T: r.Intn(2), NL: r.Chance(40)})
+			}
 		case connected[id] && x < 35:
 			c.Ops = append(c.Ops, sessOp{Op: "selfpub", ID: id, T: r.Intn(2)})
 		case x < 47:
@@ -190,6 +216,10 @@ func init() {
 	// C16: graceful restart
 	props["C16"] = &sessProp{id: "C16", gen: func(r *Rng, i int, tier string) *sessCase {
 		c := &sessCase{Preempt: true}
+		if i%10 == 6 {
+			restartWithPendingWill(r, c)
+			return c
+		}
 		v5mask := r.Intn(4)
 		genPopulation(r, c, v5mask, i%3 == 2, i%5 == 4)
 		c.Ops = append(c.Ops, sessOp{Op: "stop"})
@@ -215,7 +245,10 @@ func init() {
 				op := genConnect(r, r.Intn(2), false, v5mask)
 				op.Clean = r.Chance(15)
 				c.Ops = append(c.Ops, op)
-				if r.Chance(60) {
+				if r.Chance(25) {
+					// what was unsubscribed after one restart must not come back with the next one
+					c.Ops = append(c.Ops, sessOp{Op: "unsub", ID: op.ID, T: 0}, sessOp{Op: "unsub", ID: op.ID, T: 1})
+				} else if r.Chance(60) {
 					c.Ops = append(c.Ops, sessOp{Op: "sub", ID: op.ID, T: r.Intn(3)})
 				} else {
 					// its restored subscriptions (No Local included) apply to its own publishes
@@ -286,6 +319,11 @@ func init() {
 			switch {
 			case x < 22 && races < 2: // N connections race on one identifier
 				op := sessOp{Op: "race", ID: id, DropCur: connected[id] && r.Chance(40)}
+				if !connected[id] && r.Chance(30) {
+					// the racers queue behind a CONNECT whose CONNACK cannot be written (its session ends at once and
+					// takes the identifier's container with it)
+					op.Racers = append(op.Racers, sessOp{Op: "connect", ID: id, Abort: true, Clean: true, Expiry: -1, WillDelay: -2})
+				}
 				for j := 0; j < 2+r.Intn(2); j++ {
 					ro := genConnect(r, id, true, v5mask)
 					op.Racers = append(op.Racers, ro)
